@@ -38,3 +38,12 @@ func verifNote(label string, v any)                { panic("verif intrinsic") }
 func verifInnerMsg(name string) *codectypes.Any { panic("verif intrinsic") }
 func verifSymQty64(name string) int64               { panic("verif intrinsic") }
 func verifFreshChain(ctx sdk.Context) sdk.Context { panic("verif intrinsic") }
+
+// self-composition observations (C18)
+func verifSameState(a, b sdk.Context) bool  { panic("verif intrinsic") }
+func verifSameEvents(a, b sdk.Context) bool { panic("verif intrinsic") }
+func verifDeepEq(x, y any) bool             { panic("verif intrinsic") }
+func verifEnvBegin()                        { panic("verif intrinsic") }
+func verifEnvReplay()                       { panic("verif intrinsic") }
+func verifEnvEnd()                          { panic("verif intrinsic") }
+func verifRepeat() int                      { panic("verif intrinsic") }
